@@ -74,32 +74,30 @@ def afterReply (ca : Conn) : Conn := { ca with sess := { ca.sess with nextOut :=
 /-- `reply(m)`, the initiator does not answer -/
 theorem tStep_aSend_oneway {srI srA : Msg → Bool} {env : Env} {ci ca ci1 : Conn} {m : Msg} {eI : List Effect} (k : Nat)
     (h34 : m.has tMsgSeqNum = false) (hsr : m.mtype ≠ mSequenceReset) (hpd : (m.get? tPossDupFlag).getD "N" ≠ "Y")
-    (hasc : isAscii (sentFrame ca env m) = true)
+    (hasc : frameLatin1 (sentFrame ca env m) = true)
     (hr : recv srI env ci (sentFrame ca env m) = (ci1, eI)) (hw : writes eI = []) (hnr : hasRaised eI = false) :
     tStep srI srA env k ⟨ci, ca, []⟩ (.aSend m) =
       { pair := ⟨ci1, afterReply ca, []⟩, effI := eI, effA := [.write (sentFrame ca env m)], out := .done } := by
-  have hl := frameLatin1_of_isAscii hasc
-  unfold sentFrame at hasc hl hr
-  simp [tStep, tReply, replySeq_plain h34 hsr hpd, buildFrame_sess, hasc, hl, hr, hw, hnr, drainAfter, queueWrites,
+  unfold sentFrame at hasc hr
+  simp [tStep, tReply, replySeq_plain h34 hsr hpd, buildFrame_sess, hasc, hr, hw, hnr, drainAfter, queueWrites,
     afterReply, sentFrame]
 
 /-- `reply(TestRequest)`: the initiator answers with a Heartbeat, which the acceptor then takes from the queue -/
 theorem tStep_aTestReq_reply {srI srA : Msg → Bool} {env : Env} {ci ca ci1 ca2 : Conn} {g : Msg}
     {eI eA2 : List Effect} (k : Nat)
-    (hasc : isAscii (sentFrame ca env (testReqMsg env)) = true)
+    (hasc : frameLatin1 (sentFrame ca env (testReqMsg env)) = true)
     (hr : recv srI env ci (sentFrame ca env (testReqMsg env)) = (ci1, eI)) (hw : writes eI = [g])
     (hnr : hasRaised eI = false)
     (hr2 : recv srA env (afterReply ca) g = (ca2, eA2)) (hw2 : writes eA2 = []) (hnr2 : hasRaised eA2 = false) :
     tStep srI srA env (k + 1) ⟨ci, ca, []⟩ .aTestReq =
       { pair := ⟨ci1, ca2, []⟩, effI := eI, effA := .write (sentFrame ca env (testReqMsg env)) :: eA2, out := .done } := by
-  have hl := frameLatin1_of_isAscii hasc
   have h34 : (testReqMsg env).has tMsgSeqNum = false := rfl
   have hsr : (testReqMsg env).mtype ≠ mSequenceReset := by simp [testReqMsg, Msg.mk', mTestRequest, mSequenceReset]
   have hpd : ((testReqMsg env).get? tPossDupFlag).getD "N" ≠ "Y" := by
     simp [testReqMsg, Msg.mk', Msg.get?, Msg.lookup, tPossDupFlag, tTestReqID]
-  unfold sentFrame at hasc hl hr
+  unfold sentFrame at hasc hr
   unfold afterReply at hr2
-  simp [tStep, tReply, replySeq_plain h34 hsr hpd, buildFrame_sess, hasc, hl, hr, hw, hnr, drainAfter, queueWrites,
+  simp [tStep, tReply, replySeq_plain h34 hsr hpd, buildFrame_sess, hasc, hr, hw, hnr, drainAfter, queueWrites,
     procLoop, procOne, nestedFeed, writes, hr2, hw2, hnr2, sentFrame]
 
 /-! ### two endpoints -/
